@@ -110,6 +110,7 @@ class Engine:
         self.funcs = {}
         self.axioms = []
         self.classes = {}   # record type name -> 'module:Class'
+        self.unions = {}    # record name -> {python type name: kind tag}
         self.ctors = {}     # constructor name in code -> record type name
         self.obls = []
         self.prune = prune
@@ -285,7 +286,10 @@ class Engine:
                 self.libs_used.add('LC-DEEPCOPY: deepcopy/copy return an equal value (value semantics; freshness is C08\'s frame claim)')
                 return ev.ev(n.args[0], ctx)
             if name in self.ctors:
-                return self.construct(self.ctors[name], n, ctx, ev)
+                tgt = self.ctors[name]
+                if tgt.startswith('contract:'):
+                    return self.call_contract(tgt[len('contract:'):], n, ctx, ev)
+                return self.construct(tgt, n, ctx, ev)
             b = getattr(self, 'bi_' + name, None)
             if b is not None:
                 return b(n, ctx, ev)
@@ -308,9 +312,20 @@ class Engine:
                 q = self.method_qual(rr.ty, f.attr)
                 if q:
                     pos, kw = self.args_of(n, ctx, ev)
+                    if self.contracts[q].d.get('mutates'):
+                        # the callee edits its receiver: re-read the receiver AFTER the arguments were evaluated (they may have
+                        # edited it too), and write the new value back to the variable it came from
+                        if not isinstance(f.value, ast.Name):
+                            raise OutOfSubset(f'mutating method .{f.attr} on a non-variable receiver (line {getattr(n, "lineno", "?")})')
+                        rr = ev.ev(f.value, ctx)
+                        return self.call_bound(q, [('self', rr)], pos, kw, ctx, getattr(n, 'lineno', 0), writeback={'self': f.value.id})
                     return self.call_bound(q, [('self', rr)], pos, kw, ctx, getattr(n, 'lineno', 0))
                 raise OutOfSubset(f'method .{f.attr} of {rr.ty} has no contract (line {getattr(n, "lineno", "?")})')
             recv = rr
+            if isinstance(recv.ty, TOpt) or recv.ty == NONE:
+                recv = ev.unwrap_opt(recv, ctx, 'AttributeError')      # None.method() raises AttributeError
+                if recv.ty == NONE:
+                    return V(INT, fresh('junk', z3.IntSort()))
             m = getattr(self, 'meth_' + f.attr, None)
             if m is not None:
                 return m(recv, n, ctx, ev)
@@ -354,7 +369,7 @@ class Engine:
         pos, kw = self.args_of(n, ctx, ev)
         return self.call_bound(q, [], pos, kw, ctx, getattr(n, 'lineno', 0))
 
-    def call_bound(self, q, pre, pos, kw, ctx, line):
+    def call_bound(self, q, pre, pos, kw, ctx, line, writeback=None):
         c = self.contracts[q]
         names = list(c.params)
         binding = dict(pre)
@@ -429,11 +444,29 @@ class Engine:
         env2 = dict(env)
         env2['result'] = res
         env2['yields'] = res
+        finals = {}
+        for p_ in c.d.get('mutates', []):
+            nv, wf2 = self.fresh_value(p_ + '_after_' + q.split(':')[1].split('.')[-1], env[p_].ty)
+            for x in wf2:
+                ctx.assume(x)
+            finals[p_] = nv
+            env2[p_ + '_final'] = nv
         for lab, text in _labelled(c.ensures):
             g, a = self.spec_bool(text, env2, ghosts=ghosts)
             for x in a:
                 ctx.assume(x)
             ctx.assume(g)
+        if finals and not ctx.spec:
+            for p_, nv in finals.items():
+                var = (writeback or {}).get(p_)
+                if var is None:
+                    raise OutOfSubset(f'{q} mutates `{p_}` but the call site gives no variable to write back to')
+                old_v = ctx.env[var]
+                if ctx.guards:
+                    g_ = z3.And(*ctx.guards)
+                    ctx.env[var] = V(nv.ty, z3.If(g_, nv.t, coerce(old_v, nv.ty).t))
+                else:
+                    ctx.env[var] = nv
         return res
 
     def _close_assumes(self, ctx, start, zvars, excs_from=None):
@@ -669,6 +702,13 @@ class Engine:
         table = {'int': INT, 'float': REAL, 'str': STR, 'bool': BOOL}
         if isinstance(v.ty, TAbs):
             return mk_bool(tn == v.ty.name)
+        if isinstance(v.ty, TRec) and v.ty.name in self.unions:
+            # a union-typed value (e.g. Mod.val : str | int | float): record with a `kind` tag
+            kinds = self.unions[v.ty.name]
+            names_ = [x.strip() for x in tn.strip('()').split(',')]
+            if all(x in kinds for x in names_):
+                return V(BOOL, z3.Or(*[v.ty.get('kind', v.t) == kinds[x] for x in names_]))
+            raise OutOfSubset(f'isinstance({v.ty.name}, {tn})')
         if tn in table:
             ty = v.ty
             if isinstance(ty, TOpt):
@@ -714,7 +754,19 @@ class Engine:
         v = ev.unwrap_opt(ev.ev(n.args[0], ctx), ctx)
         if v.ty in (INT, BOOL):
             return V(INT, to_int(v))
+        if v.ty == STR:
+            # LC-NUMTEXT: int(text) either raises ValueError or returns an integer determined by the text
+            ok = z3.Function('int_parses', z3.StringSort(), z3.BoolSort())
+            val = z3.Function('int_of', z3.StringSort(), z3.IntSort())
+            ctx.exc('ValueError', z3.Not(ok(v.t)))
+            ctx.assume(z3.Not(ok(z3.StringVal(''))))
+            self.libs_used.add('LC-NUMTEXT: int(text) raises ValueError or returns int_of(text); the empty text does not parse')
+            return V(INT, val(v.t))
         raise OutOfSubset('int(non-int)')
+
+    def meth_isdigit(self, recv, n, ctx, ev):
+        f = z3.Function('str_isdigit', z3.StringSort(), z3.BoolSort())
+        return V(BOOL, f(recv.t))
 
     # ---- non-mutating methods
     def meth_index(self, recv, n, ctx, ev):
